@@ -371,7 +371,7 @@ def floors(tier):
     return [('wide', n) for n in WIDE] + [('core', s, r) for s in 'su' for r in G.ROUNDINGS] + \
            [('register', op, way) for op in ('add', 'sub', 'mul') for way in ('out', 'same')] + [('resize-wrap',), ('register-rounded',)] + \
            [('wide-from-fixed-point', True), ('wide-from-fixed-point', False), ('resize-wrap-wide',), ('register-wide-upshift',), ('register-uu-coarser-subtrahend',),
-            ('register-function', 'dot'), ('register-function', 'one-variable')]
+            ('register-function', 'dot'), ('register-function', 'one-variable'), ('register-from-wide-accumulator',)]
 
 
 # ------------------------------------------------------------------------------------------ workload
@@ -591,6 +591,24 @@ def run_case(case, ctx):
             pa_.config.op_out = Fxp(None, True, n, min(n, fa_ + fb_ + up_), overflow='wrap')
             _try(lambda: pa_ * pb_)
             ctx.floor_hit(('register-wide-upshift',))
+        # accumulators of 55..62 bits that were created from a number (float value type) and then hold a code of more than 53 significant bits, moved into
+        # short wrap registers by every route: every bit of the code counts for the residue
+        if mixed_digit == 0:
+            wa2 = rng.randint(55, 62)
+            fa2 = rng.choice([4, 8])
+            code_ = rng.choice([1, -1]) * ((1 << (wa2 - 2)) + rng.getrandbits(wa2 - 3) | 1)
+            acc2 = _try(lambda: Fxp(0.0, True, wa2, fa2))
+            if acc2 is not None:
+                _try(lambda: acc2.set_val(code_, raw=True))
+                for nr_, fr_ in ((16, fa2), (24, fa2), (32, fa2), (8, fa2)):
+                    for sg_ in (True, False):
+                        _try(lambda: Fxp(None, sg_, nr_, fr_, overflow='wrap')(acc2))
+                        _try(lambda: Fxp(acc2, like=Fxp(None, sg_, nr_, fr_, overflow='wrap')))
+                        _try(lambda: Fxp(None, sg_, nr_, fr_, overflow='wrap').set_val(acc2))
+                        rr_ = Fxp(np.zeros(2), sg_, nr_, fr_, overflow='wrap')
+                        _try(lambda: rr_.__setitem__(slice(0, 2), Fxp(np.array([code_, 1], dtype=object), True, wa2, fa2, raw=True)))
+                        _try(lambda: Fxp(None, sg_, nr_, fr_, overflow='wrap').equal(acc2))
+                ctx.floor_hit(('register-from-wide-accumulator',))
         # stored results (fixed-point objects, scalars and lopsided arrays) moved into wrap registers of 64+ bits with more fraction bits, by every route
         if wide:
             ws_ = rng.randint(16, 44)
@@ -618,7 +636,7 @@ def run_case(case, ctx):
         # results of the one-variable functions and of dot written to wrap registers: wide ones with more fraction bits (the raw result is shifted up
         # past 2^63), short ones that the exact result wraps around in; dot with operands of mixed signedness
         if qxq_digit == 1 or wide:
-            wv = rng.choice([16, 24, 28, 29, 32, 40, 62, 63])     # (28 / 29: mixed-sign dot products of 54..61 bits; 62 / 63: sums that leave 64 bits)
+            wv = rng.choice([16, 24, 28, 29, 31, 31, 32, 40, 62, 63])     # (28 / 29: mixed-sign dot products of 54..61 bits; 62 / 63: sums that leave 64 bits)
             sv = rng.random() < 0.6
             lv, hv = R.code_range(sv, wv)
             vcodes = [rng.choice([lv, hv, rng.randint(lv, hv), rng.randint(lv, hv) | 1]) for _ in range(4)]
@@ -641,6 +659,16 @@ def run_case(case, ctx):
             _try(lambda: fm.trace(xm, out=reg2()))
             yv = Fxp(np.array([rng.choice([lv, hv, rng.randint(lv, hv)]) for _ in range(4)]) if sv else np.array([rng.randint(0, hv) for _ in range(4)]), not sv if wv <= 32 else sv, wv, 0, raw=True, overflow='wrap') \
                 if rng.random() < 0.7 else Fxp(np.array(vcodes), sv, wv, 0, raw=True)
+            # matrix products whose contracted length differs from the number of result columns ((m x K) . (K x n), n < K and n > K)
+            kk_ = rng.choice([4, 8, 16])
+            mcodes = [rng.choice([lv, hv, rng.randint(lv, hv)]) for _ in range(kk_)]
+            xrow = Fxp(np.array(mcodes).reshape(1, kk_), sv, wv, 0, raw=True)
+            ycol = Fxp(np.array(list(reversed(mcodes))).reshape(kk_, 1), sv, wv, 0, raw=True)
+            y2 = Fxp(np.array((mcodes * 2)[:2 * kk_]).reshape(kk_, 2), sv, wv, 0, raw=True)
+            for rw in ((96, 0), (65, 0), (128, 0)):
+                _try(lambda: fm.dot(xrow, ycol, out=Fxp(np.zeros((1, 1)), True, rw[0], rw[1], overflow='wrap')))
+                _try(lambda: fm.dot(xrow, y2, out_like=Fxp(None, True, rw[0], rw[1], overflow='wrap')))
+                _try(lambda: xrow.dot(ycol, out_like=Fxp(None, True, rw[0], rw[1], overflow='wrap')))
             if 2 * fv <= freg2 or True:
                 _try(lambda: fm.dot(xv, yv, out=Fxp(None, True, nreg2, max(freg2, fv), overflow='wrap')))
                 _try(lambda: fm.dot(yv, xv, out_like=Fxp(None, True, nreg2 if nreg2 >= 16 else 16, fv, overflow='wrap')))
